@@ -406,6 +406,74 @@ func c07RunPeer(p c07Peer) (obs, sig, msg string) {
 	return "peer negotiated=" + got, "", ""
 }
 
+// c07EditedDiscover: a server's receiving middleware edits the server/discover result it passes on -
+// in place, as user code does (drop an entry with slices.DeleteFunc, sort, truncate).  That is that
+// server's business; a negotiation with another, ordinary server in the same process afterwards still
+// yields what the two sides and the transport support.
+func c07EditedDiscover(edit, requested string) (obs, sig, msg string) {
+	fail := func(s, format string, a ...any) (string, string, string) {
+		return "", "c07 edited-discover " + s, fmt.Sprintf(format, a...) + fmt.Sprintf(" [an earlier server's middleware edited its discover result in place: %s; then an ordinary server, requested=%q]", edit, requested)
+	}
+	saved := slices.Clone(supportedProtocolVersions)
+	defer func() { supportedProtocolVersions = saved }() // (whatever happens, the next case starts from the real list)
+	ctx, cancel := context.WithTimeout(context.Background(), time.Minute)
+	defer cancel()
+	connect := func(s *Server, version string) (*ClientSession, func(), error) {
+		ct, st := NewInMemoryTransports()
+		ss, err := s.Connect(ctx, st, nil)
+		if err != nil {
+			return nil, nil, err
+		}
+		cs, err := NewClient(&Implementation{Name: "cli", Version: "1"}, &ClientOptions{Logger: quietLogger}).Connect(ctx, ct, &ClientSessionOptions{ProtocolVersion: version})
+		if err != nil {
+			ss.Close()
+			return nil, func() {}, err
+		}
+		return cs, func() { cs.Close(); ss.Wait() }, nil
+	}
+	first := c07NewServer()
+	first.AddReceivingMiddleware(func(next MethodHandler) MethodHandler {
+		return func(ctx context.Context, method string, req Request) (Result, error) {
+			res, err := next(ctx, method, req)
+			if dr, ok := res.(*DiscoverResult); ok && err == nil {
+				switch edit {
+				case "drop-oldest":
+					dr.SupportedVersions = slices.DeleteFunc(dr.SupportedVersions, func(v string) bool { return v == "2024-11-05" })
+				case "drop-newest-legacy":
+					dr.SupportedVersions = slices.DeleteFunc(dr.SupportedVersions, func(v string) bool { return v == "2025-11-25" })
+				case "sort-ascending":
+					slices.Sort(dr.SupportedVersions)
+				case "blank-all-but-first":
+					for i := 1; i < len(dr.SupportedVersions); i++ {
+						dr.SupportedVersions[i] = "0000-00-00"
+					}
+				}
+			}
+			return res, err
+		}
+	})
+	if _, closeFirst, err := connect(first, ""); err == nil {
+		closeFirst()
+	}
+	second := c07NewServer()
+	cs, closeSecond, err := connect(second, requested)
+	if err != nil {
+		return fail("connect-failed", "Connect to the ordinary server: %v", err)
+	}
+	defer closeSecond()
+	want := requested
+	if want == "" {
+		want = "2026-07-28"
+	}
+	if got := cs.InitializeResult().ProtocolVersion; got != want {
+		return fail("requested-version-not-honoured", "negotiated %q, want %q (supported by both sides and the transport)", got, want)
+	}
+	if _, err := cs.ListTools(ctx, nil); err != nil {
+		return fail("list-failed", "ListTools: %v", err)
+	}
+	return "negotiated " + want, "", ""
+}
+
 func TestVerifC07(t *testing.T) {
 	env := verifx.LoadEnv("C07")
 	res := env.NewResult()
@@ -477,6 +545,16 @@ func TestVerifC07(t *testing.T) {
 		run(func() (string, string, string) { return c07Run(c) }, c.String(), idx, cases)
 	}
 	// one Server serving several transports in turn: what one session negotiated must not leak into the next
+	edited := env.NewCases(res, "discover-result-edited-by-another-server")
+	for _, edit := range []string{"none", "drop-oldest", "drop-newest-legacy", "sort-ascending", "blank-all-but-first"} {
+		for _, r := range []string{"", "2026-07-28", "2025-11-25", "2025-06-18", "2025-03-26", "2024-11-05"} {
+			idx, mine := edited.Next()
+			if !mine {
+				continue
+			}
+			run(func() (string, string, string) { return c07EditedDiscover(edit, r) }, fmt.Sprintf("edit=%s requested=%q", edit, r), idx, edited)
+		}
+	}
 	shared := env.NewCases(res, "one-server-two-transports")
 	kinds := []c07Cell{{transport: "inmem", advertised: "all"}, {transport: "stateless", advertised: "all"}, {transport: "sse", advertised: "all"},
 		{transport: "stateful", advertised: "all"}, {transport: "inmem", advertised: "legacy"}, {transport: "stateless", advertised: "all", jsonResp: true, store: true}}
